@@ -243,6 +243,31 @@ func runC13(c *Ctx) {
 				detail = fam + " limit=" + lim.String() + " reverse=" + rev.String()
 			}
 			c.Require("C13.R5 restart-tip-from-height-index", "getLastBlock ⇒ Iterate", p.Pos(glb.Pos()), "highest entry of the height→ID index (limit 1, reverse)", ok, detail)
+			// … and it is the block cached last: the cache's tip is whatever was pushed last, so
+			// after any other block is cached, every successful way out caches getLastBlock's
+			pf := factsOf(prep)
+			var tip ssa.Value
+			for _, s := range CallsIn(prep, "(*blockchain.DataAccess).getLastBlock") {
+				tip = s.Call.Value()
+			}
+			isTipArg := func(v ssa.Value) bool {
+				t := pf.Term(v)
+				return tip != nil && (t.V == tip || t.String() == pf.Term(tip).String()+"#0" || (t.Op == "extract" && t.Sym == "#0" && len(t.Args) == 1 && t.Args[0].V == tip))
+			}
+			isTipCache := func(in ssa.Instruction) bool {
+				cl, ok := in.(ssa.CallInstruction)
+				return ok && CalleeName(cl.Common()) == "(*blockchain.DataAccess).Cache" && isTipArg(ArgK(cl, 1))
+			}
+			nOther := 0
+			for _, s := range CallsIn(prep, "(*blockchain.DataAccess).Cache") {
+				if isTipCache(s.Call) {
+					continue
+				}
+				nOther++
+				path := reachesReturnAvoiding(s.Call, isTipCache, func(r *ssa.Return) bool { return classifyReturn(pf, r) != RetErr })
+				c.Require("C13.R5 restart-tip-cached-last", "PrepareCache ⇒ Cache("+pf.Term(ArgK(s.Call, 1)).String()+")", p.InstrPos(s.Call), "after an earlier block is cached, every successful exit still caches the block getLastBlock returned (the tip)", path == nil, pathStr(path))
+			}
+			c.MinInstances("C13.R5 restart-tip-cached-last", nOther, 1)
 		}
 	}
 
